@@ -191,6 +191,48 @@ def des_block_reaching(key, rnd, L, R):
     return _perm((l << 32) | r, 64, FP_T).to_bytes(8, 'big')
 
 
+def des_keys_with_equal_round_keys(i=0, j=15):
+    """all 64-bit keys (parity bits 0) whose round keys i and j (0-based) are equal: the equalities of PC2-selected
+    register bits form equivalence classes of register positions; every assignment of the classes is a solution
+    (256 keys for (0,15), among them the 4 weak keys)"""
+    def rot(r):
+        return sum(SHIFTS[:r + 1]) % 28
+    keys = []
+    halves = []
+    for half in (0, 1):
+        parent = list(range(28))
+
+        def find(a):
+            while parent[a] != a:
+                a = parent[a]
+            return a
+        for t in PC2_T:
+            p = t - 1
+            if (p < 28) != (half == 0):
+                continue
+            p %= 28
+            a, b = (p + rot(i)) % 28, (p + rot(j)) % 28      # register position (before rotation) feeding output p
+            parent[find(a)] = find(b)
+        classes = sorted({find(a) for a in range(28)})
+        sols = []
+        for m in range(1 << len(classes)):
+            v = 0
+            for pos in range(28):
+                if (m >> classes.index(find(pos))) & 1:
+                    v |= 1 << (27 - pos)
+            sols.append(v)
+        halves.append(sols)
+    for c in halves[0]:
+        for d in halves[1]:
+            cd = (c << 28) | d
+            k = 0
+            for idx, t in enumerate(PC1_T):
+                if (cd >> (55 - idx)) & 1:
+                    k |= 1 << (64 - t)
+            keys.append(k.to_bytes(8, 'big'))
+    return keys
+
+
 def des_enc(key, blk):
     return des_crypt(key, blk)
 
